@@ -2,7 +2,6 @@
 package remember
 
 import (
-	"bytes"
 	"context"
 	"crypto/rand"
 	"crypto/sha512"
@@ -104,8 +103,11 @@ func Authenticate(ab *authboss.Authboss, w http.ResponseWriter, req **http.Reque
 		return nil
 	}
 
-	index := bytes.IndexByte(rawToken, ';')
-	if index < 0 {
+	// The token is "pid;nonce" with a fixed size nonce (see GenerateToken).
+	// The pid itself may contain ';' (OAuth2 pids do), so the separator is
+	// located from the end rather than at the first ';'.
+	index := len(rawToken) - nNonceSize - 1
+	if index < 0 || rawToken[index] != ';' {
 		authboss.DelCookie(w, authboss.CookieRemember)
 		logger.Infof("failed to decode remember me token, deleting cookie")
 		return nil
